@@ -34,13 +34,16 @@ It never calls a transition function of the model.  For every `cylc set` command
                            the graph says when T is spawned by the command), no other pooled task changes its
                            prerequisites; a command that names no prerequisite of T changes nothing in the pool;
 * `set-pre-not-spawned`    T enters the pool unless the database has a record of it in these flows / pre-start.
+* `xtrigger-not-satisfied` / `xtrigger-changed`  xtrigger prerequisites (`--pre=xtrigger/<label>`, `xtrigger/all`): the
+                           named xtriggers that T carries (all of them with `xtrigger/all`) - the dynamic retry
+                           xtriggers included - are satisfied afterwards, no other xtrigger of any pooled task changes;
 every main loop
-* `ready-not-run`          a pooled task that is waiting with every prerequisite atom satisfied, not held, released
-                           (or within the runahead limit), never submitted yet, in a scheduler that is neither
-                           paused nor stopping, has been submitted when the loop ends.
+* `ready-not-run`          a pooled task that is waiting with every prerequisite atom and every xtrigger satisfied, not
+                           held, released (or within the runahead limit), in a scheduler that is neither paused
+                           nor stopping, has been submitted when the loop ends.
 -/
-import CylcModel.Sched3SetObs
-open Lean CylcModel.Drv CylcModel.Sched3Set CylcModel.S3Obs
+import CylcModel.Sched3XObs
+open Lean CylcModel.Drv CylcModel.Sched3X CylcModel.S3XObs
 
 namespace CylcModel.DrvC29
 
@@ -201,6 +204,24 @@ def judgeSetPre (g : Graph) (c : SetCmd) (pre post : Ob) : Option String :=
   if c.flow == ["none"] && (match x0 with | some x => !x.fl.isEmpty | none => false) then none else
   let setAll := c.pres == ["all"]
   let reqAtoms := requestedAtoms g c.pres
+  -- xtrigger prerequisites: the requested labels, and those of them that T carries (`all` = every xtrigger of T)
+  let xs : List String := (c.pres.filter (·.startsWith "xtrigger/")).map fun q =>
+    ((((q.splitOn "/").getD 1 "").splitOn ":").headD "")
+  let carried : List (String × Bool) := pre.xtrOf k
+  let wantedX (l : String) : Bool := xs.contains l || xs == ["all"]
+  let validX : List String := xs.filter fun l => l == "all" || carried.any (·.1 == l)
+  -- the xtriggers of the pooled tasks: only the wanted ones of T may change, to satisfied
+  let cX : Option String := firstSome post.xtr fun e =>
+    let before := (pre.xtrOf e.1).find? (·.1 == e.2.1)
+    match before with
+    | none => if pre.has e.1 then some s!"xtrigger-changed: {showKey e.1} got an xtrigger {e.2.1} by cylc set --pre" else none
+    | some b =>
+      if e.1 == k && wantedX e.2.1 then
+        (if e.2.2 then none
+         else some s!"xtrigger-not-satisfied: xtrigger {e.2.1} of {showKey k} requested but not satisfied")
+      else if e.2.2 != b.2 then
+        some s!"xtrigger-changed: xtrigger {e.2.1} of {showKey e.1} went from {b.2} to {e.2.2} (not requested)"
+      else none
   let graphAtoms : List (Atom × Bool) := d.pre.flatMap (·.atoms)
   let own (a : Atom) : Bool := match x0 with
     | some x => hasAtom x a
@@ -210,10 +231,10 @@ def judgeSetPre (g : Graph) (c : SetCmd) (pre post : Ob) : Option String :=
   let valid := reqAtoms.filter fun a => d.validPre.contains a
   let cf := cmdFlows c pre post
   if !post.launch.isEmpty then some s!"set-made-active: cylc set --pre launched a job" else
-  if !setAll && valid.isEmpty then
+  if !setAll && valid.isEmpty && validX.isEmpty then
     -- names no prerequisite of T: nothing happens to the pool
     if post.pool.map (fun t => (t.key, t.st, t.fl, t.out, atomsOf t)) !=
-        pre.pool.map (fun t => (t.key, t.st, t.fl, t.out, atomsOf t)) then
+        pre.pool.map (fun t => (t.key, t.st, t.fl, t.out, atomsOf t)) || post.xtr != pre.xtr then
       some s!"prereq-changed: cylc set --pre={c.pres} names no prerequisite of {showKey k} but the pool changed"
     else none
   else
@@ -245,7 +266,9 @@ def judgeSetPre (g : Graph) (c : SetCmd) (pre post : Ob) : Option String :=
       else none
     match cT with
     | some w => some w
-    | none => othersUnchanged pre post k fun _ => false
+    | none => match othersUnchanged pre post k fun _ => false with
+      | some w => some w
+      | none => cX
 
 /-- `ready-not-run`: judged on a main loop -/
 def judgeLoop (pre post : Ob) : Option String :=
@@ -253,7 +276,8 @@ def judgeLoop (pre post : Ob) : Option String :=
   firstSome pre.pool fun t =>
     let allSat := (atomsOf t).all (·.2)
     let released := !t.rh || (match post.rl with | some l => t.key.1 ≤ l | none => false)
-    if t.st == "waiting" && allSat && !t.held && released && t.sn == 0 then
+    let xSat := (pre.xtrOf t.key).all (·.2)
+    if t.st == "waiting" && allSat && xSat && !t.held && released then
       match post.get? t.key with
       | none => none
       | some t1 =>
